@@ -20,8 +20,10 @@ struct unique_ptr {
 	:_ptr{ptr}, _allocator(std::move(allocator)) {}
 
 	~unique_ptr() {
-		if (_ptr)
+		if (_ptr) {
+			_ptr->~T();
 			_allocator.free(_ptr);
+		}
 	}
 
 	unique_ptr(const unique_ptr &) = delete;
@@ -64,8 +66,10 @@ struct unique_ptr {
 		T *old = _ptr;
 		_ptr = ptr;
 
-		if (old)
+		if (old) {
+			old->~T();
 			_allocator.free(old);
+		}
 	}
 
 private:
